@@ -426,7 +426,9 @@ func (e *Engine) Deliver(inst party.ID, m *protocol.Message, cls string) Outcome
 		before = sn.VerifSnapshot()
 	}
 	stBefore := p.Status()
-	probe := p.Call(func() { can = p.H.CanAccept(m) })
+	// messages travel through their binary encoding, as on a real network (labels stay attached to the original)
+	wire := OverTheWire(m)
+	probe := p.Call(func() { can = p.H.CanAccept(wire) })
 	if probe.Panic != "" || probe.Hang {
 		e.afterCall(inst, p, probe)
 		if e.Honest[inst] && e.Log {
@@ -435,7 +437,7 @@ func (e *Engine) Deliver(inst party.ID, m *protocol.Message, cls string) Outcome
 		return probe
 	}
 	am := e.Abstract(m, cls) // before the call: the view tables may change afterwards
-	oc := p.Accept(m)
+	oc := p.Accept(wire)
 	if oc.Panic != "" || oc.Hang {
 		e.afterCall(inst, p, oc)
 		if e.Honest[inst] && e.Log {
@@ -527,4 +529,28 @@ func (e *Engine) StoredLabels(inst party.ID, r int) string {
 func (e *Engine) HasStored(inst party.ID, r int, b bool, from party.ID) bool {
 	_, ok := e.slot(inst, r, b)[from]
 	return ok
+}
+
+// OverTheWire encodes and decodes a message with the library's own codec; a message that cannot make the trip
+// is delivered as it is.
+func OverTheWire(m *protocol.Message) *protocol.Message {
+	if m == nil {
+		return nil
+	}
+	b, err := m.MarshalBinary()
+	if err != nil {
+		return m
+	}
+	var out protocol.Message
+	if err := out.UnmarshalBinary(b); err != nil {
+		return m
+	}
+	// the codec does not distinguish nil from empty byte strings; keep what the sender had
+	if m.Data == nil {
+		out.Data = nil
+	}
+	if m.SSID == nil {
+		out.SSID = nil
+	}
+	return &out
 }
